@@ -29,12 +29,12 @@ def write_cfg(path, consts, spec, invariants=(), view=None, constraint=None, ext
         f.write(extra)
 
 
-def mc(run, module, consts, invariants, name, workers=4, timeout=900, spec="Spec", constraint=None, extra=""):
+def mc(run, module, consts, invariants, name, workers=4, timeout=900, spec="Spec", constraint=None, extra="", view=None):
     """exhaustive model checking of the base spec; an invariant violation here is a defect of the
     specification itself (tool error), never of the implementation"""
     d = workdir("cfg-" + name)
     cfg = os.path.join(d, name + ".cfg")
-    write_cfg(cfg, consts, spec, invariants, constraint=constraint, extra=extra)
+    write_cfg(cfg, consts, spec, invariants, constraint=constraint, extra=extra, view=view)
     r = tlc(os.path.join(SPEC, module), cfg, workers=workers, timeout=timeout, name=name, coverage=True)
     require_tlc_ok(r, "model checking " + name)
     run.add_tlc(r)
@@ -95,7 +95,7 @@ def replay(run, cmd, cases, label, idle_timeout=8.0):
                            history=[s["op"] for s in c.get("prefix", [])])
             run.violation(det.get("kind", st), str(det.get("site")), det, case=dict(kind=c.get("kind"), init=c.get("init"),
                           history=[s["op"] for s in c.get("prefix", [])]))
-        run.distinct.add(digest([c.get("kind"), c.get("init"), [s["op"] for s in c.get("prefix", [])]]))
+        run.distinct.add(digest([c.get("kind"), c.get("init"), c.get("hashes"), [s["op"] for s in c.get("prefix", [])]]))
     run.evaluations += len(cases)
     run.notes.setdefault("replay", []).append(dict(batch=label, cases=len(cases), steps_executed=steps, **stats))
     if cases:
